@@ -614,6 +614,18 @@ def call_method(ex, recv, name, args, kw, st, where):
             if st_ok is not None:
                 yield Sym(ExcT, t.fail_val(recv.e)), st_ok
             return
+    if t is IntT:
+        # SimTime(int) helpers; datetime.time is modelled as seconds of day (assumed: DESIGN §2.4)
+        if name == "as_epoch_time":
+            yield recv, st
+            return
+        if name == "as_datetime_time":
+            r = ex.uf_apply("SimTime.time_of_day", [recv], IntT)
+            yield r, st.assume(r.e >= 0, r.e < 86400, r.e == recv.e % 86400)
+            return
+        if name == "as_iso_time":
+            yield Opaque("iso"), st
+            return
     if t is StrT:
         if name in ("lower", "strip", "upper", "split", "format", "join", "startswith"):
             yield Opaque("strmethod"), st
